@@ -2029,8 +2029,13 @@ func (r *inlineByteReader) next() bool {
 		return true
 	}
 	if node.Kind() != IndentKind && r.pos+1 < node.Span().End {
-		if r.source[r.pos] == 0 && r.source[r.pos+1] == 0 {
-			r.virtualPos = (r.virtualPos + 1) % len(nullReplacementString)
+		if r.source[r.pos+1] == 0 {
+			if r.source[r.pos] == 0 {
+				r.virtualPos = (r.virtualPos + 1) % len(nullReplacementString)
+			} else {
+				// Stepping onto the first byte of a padded NUL.
+				r.virtualPos = 0
+			}
 		}
 		r.prevPos = r.pos
 		r.pos++
